@@ -1,5 +1,6 @@
 CONSTANTS
   F32 = FALSE
 SPECIFICATION Spec
+INVARIANT NotDone
 POSTCONDITION TraceAccepted
 CHECK_DEADLOCK FALSE
